@@ -5,6 +5,7 @@ import (
 	"crypto/sha1"
 	"fmt"
 	"image/color"
+	"math"
 	"os"
 	"strings"
 	"sync"
@@ -45,6 +46,16 @@ var (
 	// edges shorter than the 1e-8 snap grid: they collapse inside the sweep and are returned to the pool early
 	tiny = oracle.ClosedData(pts(0, 0, 3, 0, 3, 4e-9, 1, 3, 4e-9, 3e-9))
 )
+
+// star returns the self-intersecting star polygon {n/k} of radius r around (cx,cy), rotated by rot.
+func star(n, k int, cx, cy, r, rot float64) []float64 {
+	var c []oracle.Pt
+	for i := 0; i < n; i++ {
+		a := rot + 2*math.Pi*float64((i*k)%n)/float64(n)
+		c = append(c, oracle.Pt{X: cx + r*math.Cos(a), Y: cy + r*math.Sin(a)})
+	}
+	return oracle.ClosedData(c)
+}
 
 var (
 	fontOnce    sync.Once
@@ -96,6 +107,19 @@ var Bodies = []Body{
 	{Name: "DivideBy(sqHole,bar)", Run: func() string { return cv.Path(sqHole).DivideBy(cv.Path(bar)).String() }},
 	{Name: "Xor(vert2,triA)", Run: func() string { return cv.Path(vert2).Xor(cv.Path(triA)).String() }},
 	{Name: "And(tiny-edges,triB)", Run: func() string { return cv.Path(tiny).And(cv.Path(triB)).String() }},
+	{Name: "Xor(star{7/3},star{7/3} shifted)", Run: func() string {
+		return cv.Path(star(7, 3, 0, 0, 5, 0.1)).Xor(cv.Path(star(7, 3, 0.7, 0.4, 5, 0.35))).String()
+	}},
+	{Name: "Settle(star{9/4},EvenOdd)", Run: func() string { return cv.Path(star(9, 4, 1, 1, 4, 0.2)).Settle(canvas.EvenOdd).String() }},
+	{Name: "Xor(star{5/2},star{5/2} shifted)", Run: func() string {
+		return cv.Path(star(5, 2, 0, 0, 5, 0.1)).Xor(cv.Path(star(5, 2, 0.7, 0.4, 5, 0.35))).String()
+	}},
+	{Name: "Not(star{7/3},star{7/3} shifted)", Run: func() string {
+		return cv.Path(star(7, 3, 0, 0, 5, 0.1)).Not(cv.Path(star(7, 3, 0.7, 0.4, 5, 0.35))).String()
+	}},
+	{Name: "Xor(star{11/4},star{11/4} shifted)", Run: func() string {
+		return cv.Path(star(11, 4, 0, 0, 5, 0.1)).Xor(cv.Path(star(11, 4, 0.7, 0.4, 5, 0.35))).String()
+	}},
 	{Name: "Stroke(zigzag)", Run: func() string {
 		return cv.Path(zigzag).Stroke(0.5, canvas.RoundCap, canvas.RoundJoin, 0.1).String()
 	}},
@@ -127,4 +151,4 @@ var Bodies = []Body{
 }
 
 // PoolUsers is the number of leading bodies that go through the sweep-line pools.
-const PoolUsers = 7
+const PoolUsers = 12
